@@ -38,8 +38,20 @@ def gen_call(rng, uns, first):
 
 def gen_case(rng):
     uns = sorted(rng.sample([1, 2, 3, 7], rng.randint(1, 2)))
-    return {"db": rng.choice(["phreeqc.dat", "phreeqc.dat", "wateq4f.dat"]), "uns": uns, "cur": rng.choice(uns),
-            "calls": [gen_call(rng, uns, i == 0) for i in range(rng.randint(1, 3))]}
+    ncalls = rng.randint(1, 3)
+    reloads = [i > 0 and rng.random() < 0.3 for i in range(ncalls)]
+    # a call made after a reload defines its selected output again (the load forgot the definitions; files of earlier calls stay on disk)
+    calls = [gen_call(rng, uns, i == 0 or reloads[i]) for i in range(ncalls)]
+    # a database (re)load between two calls: engine-side print switches (pr.logfile ...) are reset by the load while PHRQ_io's own gates
+    # (log_on ...) and the instance's sink switches survive: file and string must still receive the same content afterwards
+    for i in range(1, len(calls)):
+        if reloads[i]:
+            calls[i]["reload"] = True
+            if rng.random() < 0.6 and "KNOBS" not in calls[i - 1]["input"]:
+                calls[i - 1]["input"] += "KNOBS\n -logfile true\nSOLUTION 9\n Na 1\n Cl 1\nEND\n"
+            if rng.random() < 0.6:
+                calls[i]["sw"]["Log"] = (True, True)
+    return {"db": rng.choice(["phreeqc.dat", "phreeqc.dat", "wateq4f.dat"]), "uns": uns, "cur": rng.choice(uns), "calls": calls}
 
 
 def fname(kind, call, state):
@@ -54,6 +66,9 @@ def script_for(case):
     names = {"Output": "phreeqc.0.out", "Log": "phreeqc.0.log", "Error": "phreeqc.0.err", "Dump": "dump.0.out"}
     selnames = {n: "selected_%d.0.out" % n for n in case["uns"]}
     for ci, call in enumerate(case["calls"]):
+        if call.get("reload"):
+            ops.append(["c", "LoadDatabase", 0, os.path.join(vlib.DB, case["db"])])
+            ops.append(["events", 0])
         for s in STREAMS:
             f, st = call["sw"][s]
             ops.append(["c", "Set%sFileOn" % s, 0, int(f)])
